@@ -2039,10 +2039,21 @@ impl XmlDocumentTypeDeclaration {
     }
 
     pub fn unparsed_entities(&self) -> Vec<XmlNode<XmlUnparsedEntity>> {
+        // the first declaration of a name is the binding one
+        let mut names: Vec<String> = vec![];
         self.children
             .borrow()
             .iter()
             .filter_map(|v| v.as_entity())
+            .filter(|v| {
+                let name = v.borrow().name().to_string();
+                if names.contains(&name) {
+                    false
+                } else {
+                    names.push(name);
+                    true
+                }
+            })
             .filter(|v| v.borrow().notation_name.is_some())
             .map(|v| XmlUnparsedEntity::new(v.clone()))
             .collect()
